@@ -375,11 +375,17 @@ func init() {
 // another: a named schema used twice is the open finding KF-C15-1, which has its
 // own check.
 func onceOnly(ts *spec.TypeSpec, kind, other string, seen *bool) {
-	if ts.K == kind {
+	// the generator's own [3]uint32 arrays ARE the registered type
+	natural := kind == "cu32x3" && ts.K == "array" && ts.N == 3 && ts.Elem != nil && ts.Elem.K == "uint32"
+	if ts.K == kind || natural {
 		if *seen {
-			ts.K = other
+			*ts = spec.TypeSpec{K: other}
+			return
 		}
 		*seen = true
+		if natural {
+			return
+		}
 	}
 	if ts.Elem != nil {
 		onceOnly(ts.Elem, kind, other, seen)
